@@ -55,6 +55,8 @@ BodyStarts(stk) ==
 Expr(stk) ==
     Stay(stk, { Tok("other", "name"), Tok("other", "num"), Tok("other", "str"),
                 Tok("kw", "kw"), Tok("ws", "ws") })
+    \* IF / FOR outside procedural bodies: CREATE TABLE IF NOT EXISTS, DROP ... IF EXISTS, SELECT ... FOR UPDATE
+    \cup (IF "plainkw" \in Allow /\ Top(stk) \in {"P", "R"} THEN Stay(stk, { Tok("if", "if"), Tok("for", "for") }) ELSE {})
     \cup (IF CanPush(stk) THEN { Mv(Tok("lp", "lp"), Push(stk, "R"), FALSE) } ELSE {})
     \cup (IF CanPush(stk) /\ ("caseexpr" \in Allow \/ ("caseexpr_body" \in Allow /\ InBody(stk)))
             THEN { Mv(Tok("case", "case"), Push(stk, "CX"), FALSE) } ELSE {})
